@@ -54,6 +54,7 @@ type tmStep struct {
 	N    int    // units (tick)
 	Slow int    // the callback sleeps Slow units (call)
 	Nil  bool   // Call(nil, d): nothing is scheduled; Cancel of the result must be harmless
+	Cold bool   // chase: every round starts from a pool that has wound down
 }
 
 type tmScript []tmStep
@@ -330,8 +331,17 @@ func (e *tmExec) runScript(sc tmScript, rnd *rand.Rand, alone bool) {
 			// cancelled at the end of each round.  A wake-up lost in that window shows as a near future that is not
 			// started (Quiesce) or started seconds late.
 			for k := 0; k < st.N; k++ {
+				gap := time.Duration(rnd.Intn(30000))
+				if st.Cold {
+					// cold variant: the pool has wound down (idle time-out of a fraction of a millisecond), the far Call
+					// starts a fresh worker, and the gap is swept in steps of half a microsecond up to 150 us
+					for t0 := time.Now(); timeout.VerifWatchers() > 0 && time.Since(t0) < 50*time.Millisecond; {
+						time.Sleep(50 * time.Microsecond)
+					}
+					gap = time.Duration(k%300) * 500 * time.Nanosecond
+				}
 				farFu := e.call(tmFar, 0, true, false)
-				for t0 := time.Now(); time.Since(t0) < time.Duration(rnd.Intn(30000)); {
+				for t0 := time.Now(); time.Since(t0) < gap; {
 				}
 				near := e.call(200*time.Microsecond, 0, false, false)
 				for t0 := time.Now(); !near.started.Load() && time.Since(t0) < 2500*time.Millisecond; {
@@ -677,6 +687,34 @@ func driveTimer(opt *Options) error {
 		}
 		if geti("chase", 0) > 0 {
 			jobs = append(jobs, job{p: p, scripts: []tmScript{{{Op: "chase", N: geti("chase", 0)}}}})
+			pc := p
+			pc.idle, pc.idleChk, pc.sample = 200*time.Microsecond, false, false
+			for n := geti("chase", 0) / 2; n > 0; n -= 300 { // (short executions, see the retire job)
+				jobs = append(jobs, job{p: pc, scripts: []tmScript{{{Op: "chase", N: tmMin(n, 300), Cold: true}}}})
+			}
+		}
+		if geti("order", 0) > 0 {
+			// the queue's ORDER: dozens of futures 100 ms apart, scheduled in a shuffled order, a quarter of them cancelled
+			// in between; a future that is hidden behind a later one starts late by their distance - judged with a
+			// lateness bound of 400 ms here (the stall detector discards executions with a 250 ms overshoot)
+			po := p
+			po.L, po.idleChk, po.sample, po.restart = 400*time.Millisecond, false, false, false
+			for rep := 0; rep < geti("order", 0); rep++ {
+				nf := 48 + rnd.Intn(16)
+				per := int(100 * time.Millisecond / p.unit)
+				if per < 1 {
+					per = 1
+				}
+				var sc tmScript
+				for k, slot := range rnd.Perm(nf) {
+					sc = append(sc, tmStep{Op: "call", D: (slot + 3) * per})
+					if k > 4 && rnd.Intn(2) == 0 {
+						sc = append(sc, tmStep{Op: "cancel", I: 1 + rnd.Intn(k)})
+					}
+				}
+				sc = append(sc, tmStep{Op: "tick", N: (nf + 6) * per})
+				jobs = append(jobs, job{p: po, scripts: []tmScript{sc}})
+			}
 		}
 		if n := geti("retire", 0); n > 0 {
 			pr := p
